@@ -137,7 +137,8 @@ pub static FOUND: Mutex<Vec<(String, String)>> = Mutex::new(Vec::new());
 pub fn found(sig: &str, detail: String) {
     let mut g = FOUND.lock().unwrap();
     if g.len() < 10_000 {
-        g.push((sig.to_string(), detail));
+        let sch = CURRENT_SCHEDULE.lock().unwrap().clone();
+        g.push((sig.to_string(), if sch.is_empty() { detail } else { format!("{detail} [schedule: default non-preemptive + deviations(step:task) {sch}]") }));
     }
 }
 
@@ -156,3 +157,285 @@ pub fn clear_everything() {
     sentinel_core::circuitbreaker::clear_rules();
     sentinel_core::circuitbreaker::clear_state_change_listeners();
 }
+
+// ---------------------------------------------------------------- preemption-bounded enumeration
+//
+// Systematic exploration in the style of CHESS: the default policy never preempts (the running
+// task continues while it is runnable; when it blocks, finishes or yields, the lowest-numbered
+// other runnable task continues). A schedule is that default plus a list of *deviations*
+// (step, task). A deviation at a step where the running task could have continued and did not
+// ask to yield is a preemption and costs 1; deviations at blocking / finishing / yielding points
+// are free (but capped, since a spin loop offers one at every iteration). Every schedule with at
+// most `bound` preemptions is run exactly once: after an execution, every step after its last
+// deviation spawns one child per alternative runnable task. The real code is re-executed from
+// the start for every schedule (stateless search).
+
+#[derive(Clone, Debug)]
+struct Dev {
+    step: u32,
+    task: u32,
+}
+
+#[derive(Default)]
+struct PbCore {
+    bound: usize,
+    free_cap: usize,
+    max_runs: u64,
+    shard: u64,
+    nshards: u64,
+    /// pending schedules by number of preemptions: (deviations, preemptions used, free deviations used);
+    /// the lowest non-empty level is served first, so a capped run has still completed the lower bounds
+    levels: Vec<Vec<(Vec<Dev>, u8, u8)>>,
+    cur: Vec<Dev>,
+    cur_cost: u8,
+    cur_free: u8,
+    /// (step, alternatives, cost) for steps after the last deviation of `cur`
+    trace: Vec<(u32, Vec<u32>, u8)>,
+    step: u32,
+    next_dev: usize,
+    started: bool,
+    running: bool,
+    pub runs: u64,
+    pub diverged: u64,
+    pub max_steps: u32,
+    pub exhausted: bool,
+    pub root_children: u64,
+    /// number of executions after which all schedules with <= i preemptions had been run
+    pub level_done_at: Vec<u64>,
+}
+
+impl PbCore {
+    /// all schedules with at most this many preemptions have been executed (-1: not even the free ones)
+    fn complete_bound(&self) -> i64 {
+        match self.levels.iter().position(|l| !l.is_empty()) {
+            Some(l) => l as i64 - 1,
+            None => self.bound as i64,
+        }
+    }
+}
+
+pub struct PbScheduler {
+    core: Arc<Mutex<PbCore>>,
+}
+
+impl PbCore {
+    fn expand(&mut self) {
+        // children of the execution that has just finished
+        let is_root = self.cur.is_empty();
+        let trace = std::mem::take(&mut self.trace);
+        let mut kids = vec![];
+        let mut idx = 0u64;
+        for (step, alts, cost) in trace.iter() {
+            for a in alts {
+                let c = self.cur_cost + cost;
+                let f = self.cur_free + if *cost == 0 { 1 } else { 0 };
+                if c as usize > self.bound || f as usize > self.free_cap {
+                    continue;
+                }
+                idx += 1;
+                if is_root {
+                    self.root_children += 1;
+                    if (idx - 1) % self.nshards != self.shard {
+                        continue;
+                    }
+                }
+                let mut d = self.cur.clone();
+                d.push(Dev { step: *step, task: *a });
+                kids.push((d, c, f));
+            }
+        }
+        kids.reverse();
+        for k in kids {
+            let lvl = k.1 as usize;
+            while self.levels.len() <= lvl {
+                self.levels.push(vec![]);
+            }
+            self.levels[lvl].push(k);
+        }
+    }
+}
+
+impl Scheduler for PbScheduler {
+    fn new_execution(&mut self) -> Option<Schedule> {
+        let mut c = self.core.lock().unwrap();
+        if c.running {
+            // the previous execution ended normally
+            c.running = false;
+            c.max_steps = c.max_steps.max(c.step);
+            c.expand();
+        }
+        if !c.started {
+            c.started = true;
+            c.cur = vec![];
+            c.cur_cost = 0;
+            c.cur_free = 0;
+        } else {
+            if c.runs >= c.max_runs {
+                return None;
+            }
+            let first = c.levels.iter().position(|l| !l.is_empty()).unwrap_or(c.bound + 1);
+            while c.level_done_at.len() < first.min(c.bound + 1) {
+                let r = c.runs;
+                c.level_done_at.push(r);
+            }
+            let next = c.levels.iter_mut().find(|l| !l.is_empty()).and_then(|l| l.pop());
+            match next {
+                None => {
+                    c.exhausted = true;
+                    return None;
+                }
+                Some((d, cost, free)) => {
+                    c.cur = d;
+                    c.cur_cost = cost;
+                    c.cur_free = free;
+                }
+            }
+        }
+        *CURRENT_SCHEDULE.lock().unwrap() = format!("[{}]", c.cur.iter().map(|d| format!("{}:{}", d.step, d.task)).collect::<Vec<_>>().join(","));
+        c.runs += 1;
+        c.step = 0;
+        c.next_dev = 0;
+        c.trace.clear();
+        c.running = true;
+        Some(Schedule::new(0x5eed))
+    }
+
+    fn next_task(&mut self, runnable: &[&Task], current: Option<TaskId>, is_yielding: bool) -> Option<TaskId> {
+        let mut c = self.core.lock().unwrap();
+        let mut ids: Vec<u32> = runnable.iter().map(|t| usize::from(t.id()) as u32).collect();
+        ids.sort_unstable();
+        let cur: Option<u32> = current.map(|t| usize::from(t) as u32);
+        let cur_runnable = cur.map(|x| ids.contains(&x)).unwrap_or(false);
+        let default = if cur_runnable && !is_yielding {
+            cur.unwrap()
+        } else if cur_runnable {
+            // yielding: the next other runnable task in cyclic order, if there is one
+            let me = cur.unwrap();
+            *ids.iter().find(|x| **x > me).or_else(|| ids.iter().find(|x| **x != me)).unwrap_or(&me)
+        } else {
+            ids[0]
+        };
+        let step = c.step;
+        let mut choice = default;
+        let mut deviated_here = false;
+        if c.next_dev < c.cur.len() && c.cur[c.next_dev].step == step {
+            let want = c.cur[c.next_dev].task;
+            c.next_dev += 1;
+            deviated_here = true;
+            if ids.contains(&want) {
+                choice = want;
+            } else {
+                c.diverged += 1;
+            }
+        }
+        if c.next_dev >= c.cur.len() && !deviated_here && ids.len() > 1 {
+            let cost = if cur_runnable && !is_yielding { 1 } else { 0 };
+            let alts: Vec<u32> = ids.iter().cloned().filter(|x| *x != choice).collect();
+            c.trace.push((step, alts, cost));
+        }
+        c.step += 1;
+        let pos = runnable.iter().position(|t| usize::from(t.id()) as u32 == choice).unwrap();
+        Some(runnable[pos].id())
+    }
+
+    fn next_u64(&mut self) -> u64 {
+        0x9E37_79B9_7F4A_7C15
+    }
+}
+
+#[derive(Debug, Clone, Default)]
+pub struct PbOutcome {
+    pub runs: u64,
+    /// every schedule with at most `bound` preemptions (of this shard's part) was executed
+    pub exhausted: bool,
+    /// every schedule with at most this many preemptions was executed, even if the run was capped (-1: none)
+    pub complete_bound: i64,
+    pub bound: usize,
+    pub max_steps: u32,
+    pub diverged: u64,
+    pub root_children: u64,
+    pub level_done_at: Vec<u64>,
+    pub failures: Vec<Failure>,
+}
+
+/// Run every schedule of `scenario` with at most `bound` preemptions (sharded over the first
+/// deviation), up to `max_runs` executions. A failing schedule (deadlock / panic) is recorded
+/// with its deviation list as witness; its children are not expanded.
+pub fn enumerate_pb<F>(scenario: F, bound: usize, max_runs: u64, shard: u64, nshards: u64, stats: &Arc<Stats>, max_failures: usize) -> PbOutcome
+where
+    F: Fn() + Send + Sync + Clone + 'static,
+{
+    let core = Arc::new(Mutex::new(PbCore { bound, free_cap: 3, max_runs, shard, nshards: nshards.max(1), ..Default::default() }));
+    let mut failures = vec![];
+    loop {
+        let f = scenario.clone();
+        let st = stats.clone();
+        let c2 = core.clone();
+        let r = std::panic::catch_unwind(std::panic::AssertUnwindSafe(move || {
+            let sch = Recording { inner: PbScheduler { core: c2 }, hash: 0xcbf2_9ce4_8422_2325, len: 0, stats: st };
+            Runner::new(sch, config()).run(move || f());
+        }));
+        match r {
+            Ok(()) => break,
+            Err(_) => {
+                let msg = common::take_last_panic().unwrap_or_else(|| "<panic>".into());
+                let kind = if msg.contains("deadlock!") { "deadlock" } else if msg.contains("max_steps") { "livelock" } else { "panic" };
+                let mut c = match core.lock() {
+                    Ok(g) => g,
+                    Err(p) => p.into_inner(),
+                };
+                let devs: Vec<String> = c.cur.iter().map(|d| format!("{}:{}", d.step, d.task)).collect();
+                c.running = false; // do not expand the failing schedule
+                c.trace.clear();
+                failures.push(Failure { kind: kind.into(), message: msg, scheduler: format!("pb{} deviations=[{}]", bound, devs.join(",")), seed: 0 });
+                if failures.len() >= max_failures {
+                    break;
+                }
+            }
+        }
+    }
+    let c = match core.lock() {
+        Ok(g) => g,
+        Err(p) => p.into_inner(),
+    };
+    CURRENT_SCHEDULE.lock().unwrap().clear();
+    PbOutcome { runs: c.runs, exhausted: c.exhausted && failures.is_empty(), complete_bound: if failures.is_empty() { c.complete_bound() } else { -1 }, bound, max_steps: c.max_steps, diverged: c.diverged, root_children: c.root_children, level_done_at: c.level_done_at.clone(), failures }
+}
+
+/// accumulated over the scenarios of one monitor run, written into the report's `extra`
+#[derive(Default)]
+pub struct PbTotals {
+    pub runs: u64,
+    pub diverged: u64,
+    pub exhausted: Vec<String>,
+    pub capped: Vec<String>,
+    pub complete_hist: std::collections::BTreeMap<String, u64>,
+}
+
+impl PbTotals {
+    pub fn add(&mut self, name: &str, o: &PbOutcome) {
+        self.runs += o.runs;
+        self.diverged += o.diverged;
+        if o.exhausted {
+            if self.exhausted.len() < 400 {
+                self.exhausted.push(format!("{}:bound{}:{}:levels-done-at{:?}", name, o.bound, o.runs, o.level_done_at));
+            }
+        } else if self.capped.len() < 400 {
+            self.capped.push(format!("{}:bound{}-capped-after-{}-runs:complete-through-bound{}:levels-done-at{:?}", name, o.bound, o.runs, o.complete_bound, o.level_done_at));
+        }
+        *self.complete_hist.entry(format!("scenarios_complete_through_bound_{}", o.complete_bound)).or_insert(0) += 1;
+    }
+    pub fn into_extra(self, extra: &mut serde_json::Map<String, serde_json::Value>) {
+        extra.insert("preemption_bounded_runs".into(), serde_json::json!(self.runs));
+        extra.insert("preemption_bounded_replay_divergences".into(), serde_json::json!(self.diverged));
+        extra.insert("preemption_bounded_exhausted".into(), serde_json::json!(self.exhausted));
+        extra.insert("preemption_bounded_capped".into(), serde_json::json!(self.capped));
+        for (k, v) in self.complete_hist {
+            extra.insert(k, serde_json::json!(v));
+        }
+    }
+}
+
+/// the schedule being executed (set by the enumerating scheduler; empty under the sampling ones),
+/// appended to oracle findings as witness
+pub static CURRENT_SCHEDULE: Mutex<String> = Mutex::new(String::new());
